@@ -10,7 +10,8 @@ and the controller decides which.  For the duration of one execution
     on OS timing);
   * `Thread.join` is wrapped: waiting is a scheduler state ("blocked until target finished"), so "no enabled thread"
     is reported as deadlock.  Faithful to CPython 3.12: a join on a thread whose `_tstate_lock` is not locked (never
-    started, already finished, or released by force) returns at once, as the real one does;
+    started, already finished, or released by force) returns at once, as the real one does; a join WITH a timeout is a
+    yield point ("may time out now"), after which the scheduler runs the other threads first (fair default schedule);
   * a thread that finished `run()` is only reported finished once the interpreter has really released its
     `_tstate_lock` (the controller waits for that before scheduling anybody else), so `lock.locked()` observed by the
     code under test is a function of the schedule, not of OS timing;
@@ -48,6 +49,7 @@ class Execution:
         self.state = {}            # name -> ready | blocked | finishing | done
         self.blocked_on = {}
         self._lastline = {}        # frame -> line it is on (see _local)
+        self.yielded = set()       # threads that are in a timed wait (see the join wrapper)
         self.strict = set()        # threads waiting in the harness' final drain: only the target's real end releases them
         self.ident = {}
         self.threads = {}          # name -> Thread object (children only)
@@ -158,6 +160,17 @@ class Execution:
             name = getattr(th, '_verif_name', None)
             if name is None or ex.me() is None or ex.threads.get(name) is not th:
                 return orig_join(th, timeout)
+            if timeout is not None:
+                # A timed join is a wait that may end at any moment: it is modelled as a yield (a scheduling point after which the scheduler
+                # prefers the other threads - switching away from a yielding thread is not a preemption) followed by "joined if the target
+                # has finished by now, timed out otherwise".  Polling loops thereby stay finite under the default schedule.
+                lock = ex.tlocks.get(name)
+                if ex.state.get(name) != 'done' and (lock is None or lock.locked()):
+                    ex.yielded.add(ex.me())
+                    ex.point()
+                if ex.state.get(name) == 'done' or (lock is not None and not lock.locked()):
+                    return orig_join(th, timeout)
+                return None
             ex._block_until_done(name)
             return orig_join(th, timeout)
         T.start = start
@@ -249,7 +262,12 @@ class Execution:
                 # release everybody so the process can go on; the execution is reported as deadlocked
                 raise Deadlock(self.error)
             running_enabled = last in en
-            if running_enabled:
+            if running_enabled and last in self.yielded and len(en) > 1:
+                # the running thread yielded (timed wait): by default the others go first; any other choice at this point (another order,
+                # or "the timeout fires at once") is a deviation and is charged like a preemption, otherwise polling loops would make the
+                # number of cost-free schedules explode
+                en.remove(last); en.append(last)
+            elif running_enabled:
                 en.remove(last); en.insert(0, last)
             if self.pos < len(self.choices):
                 c = self.choices[self.pos]
@@ -262,6 +280,7 @@ class Execution:
             if len(self.log) > self.horizon:
                 raise NonDeterminism('horizon of %d scheduling points exceeded' % self.horizon)
             last = en[c]
+            self.yielded.discard(last)
             self.sem[last].release()
 
 
